@@ -66,7 +66,7 @@ func C09Scenarios(tier string) []*h.Scenario {
 			for _, n := range groupNodes(hh, g, 6) {
 				ev = append(ev, evCordon(n.Name, !n.Spec.Unschedulable), evPodStart(g, n.Name, 200), evPodFinish(g, n.Name))
 			}
-			ev = append(ev, evBurst(g, 2, 1000), evClearPending(g), evRestart())
+			ev = append(ev, evBurst(g, 2, 1000), evClearPending(g), evRestart(), evRefreshFails())
 			return ev
 		},
 	}
